@@ -53,6 +53,31 @@ class GzipProxy:
             return _FailingFile(self._real.open(filename, mode, *a, **kw), plan)
         return self._real.open(filename, mode, *a, **kw)
 
+    def GzipFile(self, *a, **kw):
+        """the same faults for a writer that uses gzip.GzipFile directly (with or without a file object)"""
+        plan = self.plan
+        real_cls = self._real.GzipFile
+        mode = kw.get('mode', a[1] if len(a) > 1 else None) or ''
+        if plan is None or not any(c in mode for c in 'wax'):
+            return real_cls(*a, **kw)
+        plan['opens'] += 1
+        if plan['mode'] == 'open' and not plan['fired']:
+            plan['fired'] = True
+            raise plan['exc']
+
+        class _FailingGzipFile(real_cls):
+            def write(self2, data):
+                plan['writes'] += 1
+                if plan['mode'] == 'first_write' and not plan['fired']:
+                    plan['fired'] = True
+                    raise plan['exc']
+                if plan['mode'] == 'mid_write' and not plan['fired']:
+                    plan['fired'] = True
+                    real_cls.write(self2, bytes(data)[:max(1, len(data) // 2)])
+                    raise plan['exc']
+                return real_cls.write(self2, data)
+        return _FailingGzipFile(*a, **kw)
+
     def __getattr__(self, n):
         return getattr(self._real, n)
 
